@@ -1004,7 +1004,19 @@ pub fn removal(seed: u64) -> (Scenario, SchedCfg) {
         if uni {
             s.setup.push(Op::IntoSingle { h: 1 });
         }
-        let prog = consume_until_end(&mut g.rng, 1, uni, fut, true);
+        let mut prog = Vec::new();
+        if fut && g.rng.chance(1, 3) {
+            // conversions that replace the stream under traffic: into_single (clone + drop),
+            // transform_operation and into_multi (add a stream, drop the old one)
+            prog.push(Op::Consume { h: 1, api: RecvApi::Poll, quota: 1, max_empty: 3, after_end: 0 });
+            prog.push(Op::IntoSingle { h: 1 });
+            if g.rng.chance(1, 2) {
+                prog.push(Op::Transform { h: 1 });
+            }
+            prog.push(Op::Consume { h: 1, api: RecvApi::Poll, quota: 1, max_empty: 3, after_end: 0 });
+            prog.push(Op::IntoMulti { h: 1 });
+        }
+        prog.extend(consume_until_end(&mut g.rng, 1, uni, fut, true));
         s.threads.push(ThreadSpec { handles: vec![1], prog, spawned: false });
     } else {
         // stream 0 is a victim too, but at least one stream must survive: keep the last victim
@@ -1126,10 +1138,15 @@ pub fn churn(seed: u64) -> (Scenario, SchedCfg) {
                 1 => {
                     prog.push(Op::Consume { h: c, api: RecvApi::TryRecv, quota: g.rng.range(1, 2) as u32, max_empty: 4, after_end: 0 });
                     prog.push(Op::DropRecv { h: c });
-                    // sole consumer again: the single-consumer fast path may be taken
-                    if !fut && g.rng.chance(1, 2) {
+                    // sole consumer again: the single-consumer fast path may be taken (for
+                    // futures handles the conversion itself clones and drops, and into_multi
+                    // adds a stream and drops the old one)
+                    if g.rng.chance(1, 2) {
                         prog.push(Op::IntoSingle { h });
                         is_uni = true;
+                        if fut && g.rng.chance(1, 3) {
+                            prog.push(Op::Transform { h });
+                        }
                     }
                 }
                 _ => {
@@ -1328,7 +1345,7 @@ pub fn reclaim(seed: u64, counting: bool) -> (Scenario, SchedCfg) {
 /// `seq.churn` (C17): a fixed set of handles stays alive and every one of them performs an
 /// operation in every cycle, while each cycle also does add_stream/drop, clone/drop and
 /// into_single/into_multi; optionally a non-last handle of a stream was dropped earlier.
-pub fn seq_churn(seed: u64) -> (Scenario, SchedCfg) {
+pub fn seq_churn(seed: u64, long_ok: bool) -> (Scenario, SchedCfg) {
     use crate::seq::SeqCall as C;
     let mut g = Gen::new(seed);
     let flavour = pick_flavour(&mut g.rng);
@@ -1384,7 +1401,16 @@ pub fn seq_churn(seed: u64) -> (Scenario, SchedCfg) {
         body.push(C::IntoMulti { h: 1 });
     }
     body.push(C::Sample { cycle: u32::MAX });
-    let times = *g.rng.pick(&[100u32, 100, 200, 400, 800]);
+    // 10^2 .. 10^5 cycles; the long histories only in the thorough tier (run indices beyond
+    // the quick tier's range)
+    let mut times = *g.rng.pick(&[100u32, 100, 200, 400, 800]);
+    if long_ok {
+        if g.rng.chance(1, 150) {
+            times = 10_000;
+        } else if g.rng.chance(1, 2500) {
+            times = 100_000;
+        }
+    }
     calls.push(C::Repeat { times, body });
     s.seq = Some(calls);
     s.probe = false;
@@ -1395,7 +1421,7 @@ pub fn seq_churn(seed: u64) -> (Scenario, SchedCfg) {
     s.tags.push(if early_drop { "early_drop_of_non_last_handle".into() } else { "no_early_drop".into() });
     let mut c = SchedCfg::new(g.rng.next(), Strategy::Uniform);
     c.livelock_window = 100_000;
-    c.max_steps = 20_000_000;
+    c.max_steps = 400_000_000;
     (s, c)
 }
 
